@@ -2435,7 +2435,18 @@ fn mmio_note(b: &[u8]) -> String {
 
 fn mmio_readout(path: &Path, chunks: &[usize], plan: &[u8], typed: bool) -> Result<Vec<u8>, String> {
     // plan[0] also chooses the access-pattern hint the file is opened with (11 = none given)
-    let mut inp = match plan[0] % 5 {
+    let mut inp = match plan[0] % 6 {
+        // a handle that was used before it is handed over (the caller looked at the first bytes
+        // through it, e.g. a magic number): its OS cursor is not at 0, the input's position is
+        5 => std::fs::File::open(path)
+            .and_then(|mut f| {
+                use std::io::Read;
+                let mut magic = [0u8; 4];
+                let _ = f.read(&mut magic)?;
+                Ok(f)
+            })
+            .map_err(|e| zipora::ZiporaError::io_error(e.to_string()))
+            .and_then(MemoryMappedInput::new),
         0 => MemoryMappedInput::from_path(path),
         1 => MemoryMappedInput::from_path_with_pattern(path, AccessPattern::Sequential),
         2 => MemoryMappedInput::from_path_with_pattern(path, AccessPattern::Random),
